@@ -12,7 +12,7 @@ import (
 )
 
 func init() {
-	register("C10", "Decides the failure-atomicity and handle-discipline clauses for every injection point at once (rules are per site, hence for every k): (R10.1) handle typestate by path enumeration over the four protocol entry points and the handle constructors: on every CFG path, with the deferred closes applied at the return and closer summaries of driver.Close() resolved through the constructor, each opened handle that does not escape through a successful return is closed exactly once and is not used after a non-deferred close; (R10.2) every return of a function that hands a path upwards carries a nil result whenever its error may be non-nil; (R10.3) on the run path every fmt.Errorf that is given an error formats it with %w, and every error returned under `E != nil` for an I/O-class E (open, filter install, send, read) still carries E's origin; (R10.4) every goroutine started on the run path is joined by a Wait on every path to a return; (R10.5) the error of each SetPacketFilter call is tested and returned wrapped. Decided on the linux and darwin builds (Windows cannot be type-checked here; its raw-socket double close is out of reach). That deferred closes run when the process is killed, and goroutine termination (C08), are not decided here.", runC10)
+	register("C10", "Decides the failure-atomicity and handle-discipline clauses for every injection point at once (rules are per site, hence for every k): (R10.1) handle typestate by path enumeration over the four protocol entry points and the handle constructors: on every CFG path, with the deferred closes applied at the return and closer summaries of driver.Close() resolved through the constructor, each opened handle that does not escape through a successful return is closed exactly once and is not used after a non-deferred close; (R10.2) every return of a function that hands a path upwards carries a nil result whenever its error may be non-nil; (R10.3) on the run path every fmt.Errorf that is given an error formats it with %w, and every error returned under `E != nil` for an I/O-class E (open, filter install, send, read) still carries E's origin; (R10.4) every goroutine started on the run path is joined by a Wait on every path to a return; (R10.5) the error of each SetPacketFilter call is tested and returned wrapped. Decided on the linux and darwin builds (Windows cannot be type-checked here; its raw-socket double close is out of reach). That deferred closes run when the process is killed, and goroutine termination (C08), are not decided here. (R10.6b) On a path where the capture read's error is not known nil, what ReadAndParse returns carries that error. Closing helpers are summarised (a module function that closes a parameter on every path, or every element of a slice parameter in a loop without early exit); a driver's Close closes a field only if the close sits on every path to every return.", runC10)
 	darwinRules["C10"] = runC10
 }
 
@@ -24,24 +24,24 @@ type openerSpec struct {
 }
 
 var openers = map[string]openerSpec{
-	"packets.NewSourceSink":      {results: []int{0}, fields: []string{"Source", "Sink"}, takes: -1},
-	"common.LocalAddrForHost":    {results: []int{1}, takes: -1},
-	"tcp.reserveLocalPort":       {results: []int{1}, takes: -1},
-	"sack.dialSackTCP":           {results: []int{0}, takes: -1},
-	"packets.NewSinkLinux":       {results: []int{0}, takes: -1},
-	"packets.NewAFPacketSource":  {results: []int{0}, takes: -1},
-	"packets.NewSinkDarwin":      {results: []int{0}, takes: -1},
-	"packets.NewBpfDevice":       {results: []int{0}, takes: -1},
-	"packets.pickBpfDevice":      {results: []int{0}, takes: -1},
-	"unix.Socket":                {results: []int{0}, takes: -1},
-	"unix.Open":                  {results: []int{0}, takes: -1},
-	"syscall.Socket":             {results: []int{0}, takes: -1},
-	"os.NewFile":                 {results: []int{-1}, takes: 0},
-	"net.Dial":                   {results: []int{0}, takes: -1},
-	"net.Listen":                 {results: []int{0}, takes: -1},
-	"(*net.Dialer).DialContext":  {results: []int{0}, takes: -1},
+	"packets.NewSourceSink":            {results: []int{0}, fields: []string{"Source", "Sink"}, takes: -1},
+	"common.LocalAddrForHost":          {results: []int{1}, takes: -1},
+	"tcp.reserveLocalPort":             {results: []int{1}, takes: -1},
+	"sack.dialSackTCP":                 {results: []int{0}, takes: -1},
+	"packets.NewSinkLinux":             {results: []int{0}, takes: -1},
+	"packets.NewAFPacketSource":        {results: []int{0}, takes: -1},
+	"packets.NewSinkDarwin":            {results: []int{0}, takes: -1},
+	"packets.NewBpfDevice":             {results: []int{0}, takes: -1},
+	"packets.pickBpfDevice":            {results: []int{0}, takes: -1},
+	"unix.Socket":                      {results: []int{0}, takes: -1},
+	"unix.Open":                        {results: []int{0}, takes: -1},
+	"syscall.Socket":                   {results: []int{0}, takes: -1},
+	"os.NewFile":                       {results: []int{-1}, takes: 0},
+	"net.Dial":                         {results: []int{0}, takes: -1},
+	"net.Listen":                       {results: []int{0}, takes: -1},
+	"(*net.Dialer).DialContext":        {results: []int{0}, takes: -1},
 	"(*net.ListenConfig).ListenPacket": {results: []int{0}, takes: -1},
-	"ipv4.NewRawConn":            {results: []int{0}, takes: 0},
+	"ipv4.NewRawConn":                  {results: []int{0}, takes: 0},
 }
 
 // typestate entry functions (floors checked).
@@ -239,12 +239,12 @@ func closerFields(p *core.Prog, f *ssa.Function) []string {
 				continue
 			}
 			for _, recv := range closeTargets(ci) {
-			if ld, ok := recv.(*ssa.UnOp); ok {
-				if fa, ok := ld.X.(*ssa.FieldAddr); ok && fa.X == ssa.Value(f.Params[0]) {
-					st := fa.X.Type().Underlying().(*types.Pointer).Elem().Underlying().(*types.Struct)
-					out = append(out, st.Field(fa.Field).Name())
+				if ld, ok := recv.(*ssa.UnOp); ok {
+					if fa, ok := ld.X.(*ssa.FieldAddr); ok && fa.X == ssa.Value(f.Params[0]) {
+						st := fa.X.Type().Underlying().(*types.Pointer).Elem().Underlying().(*types.Struct)
+						out = append(out, st.Field(fa.Field).Name())
+					}
 				}
-			}
 			}
 		}
 	}
